@@ -16,6 +16,7 @@
 import CM.Proofs.Sound
 import CM.Proofs.StoreLemmas
 import CM.Proofs.WorldFrame
+import CM.Proofs.Deps
 namespace CM
 
 abbrev Fam := Graph → DenCfg → Prop
@@ -53,6 +54,7 @@ inductive CacheOK (F : Fam) (g : Graph) (d : DenCfg) (n : Nat) : Prog → Prop
   | get (s : Nat) (h : NHash) (k : Option Val → Prog) :
       CacheOK F g d n (k none) → (∀ v, CacheOK F g d n (k (some v))) →
       (∀ ex k' v, RightFor F ex k' v → keyEqB ex k' h = true → interp (ctxOf g d n) (k (some v)) = interp (ctxOf g d n) (k none)) →
+      (∀ v q, q ∈ progDeps (ctxOf g d n) (k (some v)) → q ∈ progDeps (ctxOf g d n) (k none)) →
       CacheOK F g d n (.eff (.get s h) k)
   | set (s : Nat) (h : NHash) (v : Val) (k : Option Val → Prog) :
       CacheOK F g d n (k none) → (∀ ex k', Faithful F ex → keyEqB ex k' h = true → RightFor F ex k' v) →
@@ -92,7 +94,7 @@ theorem runEffs_cacheOK {F : Fam} {g : Graph} {d : DenCfg} {n : Nat} {p : Prog} 
   | ret x => intro w hw; exact ⟨.ret x, hw, rfl, rfl⟩
   | raise e => intro w hw; exact ⟨.raise e, hw, rfl, rfl⟩
   | req r k hk _ => intro w hw; exact ⟨.req r k hk, hw, rfl, rfl⟩
-  | get s h k _ _ hob ih0 ih1 =>
+  | get s h k _ _ hob _ ih0 ih1 =>
     intro w hw
     simp only [runEffs, World.doOp]
     cases hs : w.stores[s]? with
@@ -135,6 +137,32 @@ theorem runEffs_cacheOK {F : Fam} {g : Graph} {d : DenCfg} {n : Nat} {p : Prog} 
       obtain ⟨a, b, c, e⟩ := ih0 _ hw'
       exact ⟨a, b, by rw [c]; rfl, e⟩
 
+/-- a hit only shortens what the program asks for -/
+theorem runEffs_deps {F : Fam} {g : Graph} {d : DenCfg} {n : Nat} {p : Prog} (hp : CacheOK F g d n p) :
+    ∀ w q, q ∈ progDeps (ctxOf g d n) (runEffs p w).1 → q ∈ progDeps (ctxOf g d n) p := by
+  induction hp with
+  | ret x => intro w q h; exact h
+  | raise e => intro w q h; exact h
+  | req r k _ _ => intro w q h; exact h
+  | get s h k _ _ _ hdeps ih0 ih1 =>
+    intro w q hq
+    simp only [runEffs, World.doOp] at hq
+    simp only [progDeps]
+    cases hs : w.stores[s]? with
+    | none => simp only [hs] at hq; exact ih0 _ q hq
+    | some st =>
+      simp only [hs] at hq
+      cases hr : (st.get h).1 with
+      | none => simp only [hr] at hq; exact ih0 _ q hq
+      | some v => simp only [hr] at hq; exact hdeps v q (ih1 v _ q hq)
+  | set s h v k _ _ ih0 =>
+    intro w q hq
+    simp only [runEffs, World.doOp] at hq
+    simp only [progDeps]
+    cases hs : w.stores[s]? with
+    | none => simp only [hs] at hq; exact ih0 _ q hq
+    | some st => simp only [hs] at hq; exact ih0 _ q hq
+
 theorem bind_asVal_ok (r : Except Err Item) (v : Val) (h : r.bind Item.asVal = .ok v) : r = .ok (.val v) := by
   cases r with
   | error e => cases h
@@ -163,7 +191,7 @@ theorem cache_evalProg_ok (F : Fam) (g : Graph) (d : DenCfg) (n s a : Nat) (hF :
       simp only [interpReq, ctxOf, hh, Except.map]
     simp only [interp, hcur] at hden
     -- `hden : (den n).v = (interp c (k2 none)).bind asVal`
-    refine .get s h _ ?_ (fun v => .ret _) ?_
+    refine .get s h _ ?_ (fun v => .ret _) ?_ (fun v q hq => by simp [progDeps] at hq)
     · refine .req _ _ ?_
       intro y hy
       simp only [interpReq] at hy
